@@ -355,11 +355,15 @@ def run(shard, ctx):
             got = got[len(prefill):]
             k, ok, why = 0, True, None
             nsplit = 0
+
+            def same(x, y):
+                # the pieces of a split carry float values (1 / remaining length): equal to within a billionth of a whole note
+                return x == y or abs(float(x) - float(y)) <= 1e-9
             for (c, l, _dep) in items:
                 names = None if c is None else tuple(x.name for x in NoteContainer().from_chord(c).notes)
-                if k < len(got) and got[k] == (names, l):
+                if k < len(got) and got[k][0] == names and same(got[k][1], l):
                     k += 1
-                elif k + 1 < len(got) and got[k][0] == names and got[k + 1][0] == names and got[k][1] + got[k + 1][1] == l:
+                elif k + 1 < len(got) and got[k][0] == names and got[k + 1][0] == names and same(got[k][1] + got[k + 1][1], l):
                     k += 2
                     nsplit += 1
                 else:
@@ -371,7 +375,7 @@ def run(shard, ctx):
                       mechanism="placement:" + ("rest" if (why and why.get("item", (1,))[0] is None) else "chord"), shape=shape)
             if ok:
                 tot = sum(g[1] for g in got)
-                ctx.check("from_chords: total length equals the requested lengths", tot == sum(l for (_c, l, _d) in items), w,
+                ctx.check("from_chords: total length equals the requested lengths", same(tot, sum(l for (_c, l, _d) in items)), w,
                           str(sum(l for (_c, l, _d) in items)), str(tot), mechanism="total")
                 st2, integ = ctx.call(t.test_integrity)
                 ctx.check("from_chords: every bar except the last is full", st2 == "ok" and integ is True, w, True, repr(integ))
